@@ -163,7 +163,7 @@ func (w *world) project() (p proj, counts []int, problem string) {
 	if err != nil {
 		return p, nil, "FindUserResourceMappings: " + err.Error()
 	}
-	counts = []int{len(orgs), 0, len(users), len(urms)}
+	counts = []int{len(orgs), 0, len(users), 0}
 	liveOrg := map[platform.ID]bool{}
 	orgByName := map[string]platform.ID{}
 	for _, o := range orgs {
@@ -210,7 +210,23 @@ func (w *world) project() (p proj, counts []int, problem string) {
 			problem = fmt.Sprintf("bucket %v: type %v but name %q", b.ID, b.Type, b.Name)
 		}
 	}
+	liveBkt := map[platform.ID]bool{}
+	for _, b := range bkts {
+		liveBkt[b.ID] = true
+	}
 	for _, m := range urms {
+		if m.ResourceType == influxdb.BucketsResourceType {
+			// bucket-level memberships are a concretisation of addMember (not part of the abstract tables): they are subject to
+			// the same referential integrity as the organization-level ones
+			if !liveBkt[m.ResourceID] {
+				problem = fmt.Sprintf("membership of user %v refers to bucket %v which does not exist (left behind by a delete)", m.UserID, m.ResourceID)
+			}
+			if !liveUsr[m.UserID] {
+				problem = fmt.Sprintf("membership in bucket %v refers to user %v which does not exist", m.ResourceID, m.UserID)
+			}
+			continue
+		}
+		counts[3]++
 		p.Urms = append(p.Urms, w.idUsr(m.UserID)+" "+w.idOrg(m.ResourceID))
 		if m.ResourceType == influxdb.OrgsResourceType && !liveOrg[m.ResourceID] {
 			problem = fmt.Sprintf("membership of user %v refers to organization %v which does not exist", m.UserID, m.ResourceID)
@@ -387,6 +403,19 @@ func run(raw json.RawMessage, env *rt.Env) rt.Result {
 		case "addMember":
 			err = svc.CreateUserResourceMapping(ctx, &influxdb.UserResourceMapping{UserID: w.usr[argInt(s.X[0])], UserType: influxdb.Member,
 				MappingType: influxdb.UserMappingType, ResourceType: influxdb.OrgsResourceType, ResourceID: w.org[argInt(s.X[1])]})
+			if err == nil {
+				// concretisation: the new member also gets a membership on every user bucket the organization has right now
+				// (errors ignored: a second addMember after a removeMember finds them in place)
+				oid := w.org[argInt(s.X[1])]
+				if bs, _, e := svc.FindBuckets(ctx, influxdb.BucketFilter{OrganizationID: &oid}); e == nil {
+					for _, b := range bs {
+						if b.Type != influxdb.BucketTypeSystem {
+							_ = svc.CreateUserResourceMapping(ctx, &influxdb.UserResourceMapping{UserID: w.usr[argInt(s.X[0])], UserType: influxdb.Member,
+								MappingType: influxdb.UserMappingType, ResourceType: influxdb.BucketsResourceType, ResourceID: b.ID})
+						}
+					}
+				}
+			}
 		case "removeMember":
 			err = svc.DeleteUserResourceMapping(ctx, w.org[argInt(s.X[1])], w.usr[argInt(s.X[0])])
 		default:
